@@ -48,6 +48,17 @@ func randTOp(r *rng, cur, n int) (string, bool) {
 }
 
 func genC03(tier string, r *rng, emit func(string)) {
+	// strided vector-LIKE views of rank 3 and 4 (one long axis, the others of length one, strides
+	// from a bigger parent): lazy and physical transposition, the copying spellings
+	for _, v := range []string{"new:rm:1,1,4,3:0;slice:0:_/_/_/1.2.0", "new:rm:1,1,8:0;slice:0:_/_/0.8.2", "new:rm:1,4,1,3:0;slice:0:_/_/_/2.3.0",
+		"new:rm:4,1,1,2:0;slice:0:_/_/_/1.2.0", "new:rm:1,6,1:0;slice:0:_/0.6.2/_", "new:rm:2,1,4:0;slice:0:1.2.1/_/0.4.2"} {
+		for _, perm := range []string{"2,0,1", "1,2,0", "2,1,0", "0,2,1", "1,0,2"} {
+			emit(fmt.Sprintf("prog f64 %s;T:1:%s;transpose:1", v, perm))
+			emit(fmt.Sprintf("prog i %s;apitranspose:1:%s", v, perm))
+			emit(fmt.Sprintf("prog f32 %s;safeT:1:%s;transpose:2", v, perm))
+			emit(fmt.Sprintf("prog f64 %s;T:1:%s;mat:1", v, perm))
+		}
+	}
 	// found by the proof of history_refines (RefineProofs.v): RollAxis of a strided vector-shaped
 	// view goes through AP.T, which overwrites the strides with ones (F45)
 	for _, p := range []string{"new:rm:6,1:1;slice:0:0.6.2;rollaxis:1:1:0:0", "new:rm:6,1:1;slice:0:0.6.2;rollaxis:1:1:0:1",
